@@ -13,9 +13,11 @@ for s in "$@"; do
   cargo test --offline --workspace --no-fail-fast $FEAT 2>&1 | grep -E "^test .* (FAILED|failed)$|^test .*\.\.\. FAILED" | sed 's/ \.\.\. FAILED//' | sort > /tmp/wt/verify_with.txt
   git checkout -q -- . 
   cargo test --offline $FEAT --test demo_mutant_$$ 2>&1 | grep -E "^test result" > /tmp/wt/verify_without.txt
-  other=$(grep -v -E "test_get_weighted_triangles_and_degrees_1|test_clustering_directed_weighted|test_clustering_undirected_weighted|src/lib.rs - \(line 232\)" /tmp/wt/verify_with.txt | grep -v "^test tests::\|demo" | wc -l)
-  demofail=$(grep -c "" /tmp/wt/verify_with.txt)
-  echo "$s: failing-with-change=$(cat /tmp/wt/verify_with.txt | wc -l) (non-baseline, non-demo: $other) | without: $(cat /tmp/wt/verify_without.txt)"
-  cat /tmp/wt/verify_with.txt | grep -v -E "test_get_weighted_triangles|test_clustering_(un)?directed_weighted|line 232" | head -6
+  BASE='test_get_weighted_triangles_and_degrees_1|test_clustering_directed_weighted|test_clustering_undirected_weighted|line 232'
+  DEMOS=$(grep -oE 'fn [a-z_0-9]+' $d/demo_mutant.rs | sed 's/fn //' | tr '\n' '|' | sed 's/|$//')
+  other=$(grep -v -E "$BASE" /tmp/wt/verify_with.txt | grep -v -E "$DEMOS" | wc -l)
+  demofail=$(grep -v -E "$BASE" /tmp/wt/verify_with.txt | grep -c -E "$DEMOS")
+  echo "$s: failing-with-change=$(wc -l < /tmp/wt/verify_with.txt) (demonstration tests failing: $demofail; other non-baseline failures: $other) | without: $(cat /tmp/wt/verify_without.txt)"
+  grep -v -E "$BASE" /tmp/wt/verify_with.txt | head -6
   rm -f tests/demo_mutant_$$.rs
 done
